@@ -433,7 +433,7 @@ PLANS = {
                 runs=[("syntax", dict(quick=20000, thorough=600000), ["--focus", "C07"]), ("compiler", dict(quick=10000, thorough=300000))],
                 rule="all strings up to length 3 (thorough 4) over 25 syntax symbols x {-,u,v}; generated valid patterns, single-token mutations, random syntax-alphabet strings incl. surrogate code points; 30 adversarially large patterns (10^5..10^6 alternatives / nesting 255,256,257,10^5 / 65535,65536 groups and loops / 30-digit counts / 10^6-char literals / ...) each in a worker process; non-trivial = compiles",
                 technique="Lean 4 proofs about the parser / optimizer / emitter models with every Rust panic site explicit (case classes <= 4, pre-scan totality, …) + exact correspondence of the parser model (accept/reject and IR) + adversarial stream in worker processes"),
-    "C08": dict(proofs=["Proofs.C08", "Proofs.Lemmas.ESGrammarLaws", "Proofs.C07"],
+    "C08": dict(proofs=["Proofs.C08", "Proofs.C08Frag", "Proofs.Lemmas.ESGrammarLaws", "Proofs.Lemmas.ParseRegressions", "Proofs.C07"],
                 runs=[("syntax", dict(quick=150000, thorough=3000000), ["--focus", "C08"])],
                 rule="all strings up to length 3 (thorough 4) over 25 syntax symbols x {-,u,v}; generated valid patterns of every flag set (character spellings varied: raw, \\xHH, \\uHHHH, \\u{..}, surrogate pairs, \\cX, control escapes, identity escapes), single-token mutations of them, random strings over the syntax alphabet incl. surrogate code points; every case asked both of Regex::with_flags and of the ES2025 grammar recognizer; non-trivial = compiles",
                 technique="Lean 4 recognizer of the ES2025 Pattern grammar incl. Annex B and early errors (written from ECMA-262 alone, validated against V8 on 10^8 strings) with a proof that it never runs out of fuel + exact correspondence of the parser model (accept/reject and IR) + parser totality theorems (C07) + differential implementation vs recognizer on every generated string"),
@@ -455,7 +455,7 @@ PLANS = {
     "C10": dict(proofs=["Proofs.C10"], runs=[("c10", dict(quick=0, thorough=0))],
                 rule="every code point with a non-trivial case class in either source (quick: all below U+0250 and a quarter of the rest) x {i, iu, iv} x {literal, [c], [^c], (c)\\1} x every member of both classes; \\w \\W [\\w] [\\W] \\b for every such code point; non-trivial = c ≠ d equivalent",
                 technique="Lean 4 kernel evaluation over FOLDS / TO_UPPERCASE regenerated from the source vs ICU 78.2 snapshot, lifted to all code points; engine-level sweep of the same relation"),
-    "C01": dict(proofs=["Proofs.C01", "Proofs.Lower", "Proofs.LowerChain", "Proofs.Keystone"], runs=[("engine", dict(quick=30000, thorough=600000), ["--focus", "C01"]), ("lower", dict(quick=10000, thorough=200000))],
+    "C01": dict(proofs=["Proofs.C01", "Proofs.Lower", "Proofs.LowerChain", "Proofs.ESTerm", "Proofs.Keystone"], runs=[("engine", dict(quick=30000, thorough=600000), ["--focus", "C01"]), ("lower", dict(quick=10000, thorough=200000))],
                 rule=ENGINE_RULE,
                 technique="Lean 4 ES2025 specification (laws proved) as executable oracle: spec-vs-implementation differential on generated ASTs"),
     "C04": dict(proofs=["Proofs.C04", "Proofs.C04Sem", "Proofs.EndToEnd"], runs=[("engine", dict(quick=30000, thorough=1500000), ["--focus", "C04"]),
@@ -693,6 +693,13 @@ def check(pid, tier, seed):
                     continue
                 outdir = outdir + "-" + run_entry[3]["profile"]
             rc, hout, rep = run_harness(run_binary, cmd, outdir, args)
+            if rc == -9:
+                # SIGKILL comes from outside the process (the kernel's out-of-memory killer under load, an
+                # operator): a Rust panic, abort or memory fault is 101 / -6 / -11. Run it once more before
+                # calling it a crash of the engine.
+                time.sleep(20)
+                stats["dist"]["harness-sigkill-retries"] = stats["dist"].get("harness-sigkill-retries", 0) + 1
+                rc, hout, rep = run_harness(run_binary, cmd, outdir, args)
             if rc != 0 or rep is None:
                 # the process died (abort / segmentation fault / stack overflow): that is itself an observation.
                 # Re-run in the checked profile (debug assertions, overflow checks), where undefined behaviour
